@@ -51,6 +51,10 @@ type fpResult struct {
 	Outcome string `json:"outcome"`
 	FP      string `json:"fp"`
 	Msg     string `json:"msg,omitempty"`
+	// the pickled environment, and whether dawn's own comparison (diffEnv) finds the environment
+	// equal to the one in $VERIF_FP_BASE
+	Stamp string `json:"stamp,omitempty"`
+	Same  *bool  `json:"same,omitempty"`
 }
 
 type fpChildOut struct {
@@ -98,6 +102,12 @@ func TestVerifFpChild(t *testing.T) {
 		names = append(names, n)
 	}
 	sort.Strings(names)
+	baseStamps := map[string]string{}
+	if bf := os.Getenv("VERIF_FP_BASE"); bf != "" {
+		if b, err := os.ReadFile(bf); err == nil {
+			json.Unmarshal(b, &baseStamps)
+		}
+	}
 	for _, n := range names {
 		f, ok := proj.targets[n].target.(*function)
 		if !ok {
@@ -112,6 +122,21 @@ func TestVerifFpChild(t *testing.T) {
 		} else {
 			sum := sha256.Sum256(buf.Bytes())
 			r.FP = hex.EncodeToString(sum[:8])
+			r.Stamp = base64.StdEncoding.EncodeToString(buf.Bytes())
+			if bs, ok := baseStamps[n]; ok {
+				// the decision dawn itself would take: the base environment as the one of the
+				// last run, this process's as the current one
+				if raw, err := base64.StdEncoding.DecodeString(bs); err == nil {
+					if old, err := pickle.NewDecoder(bytes.NewReader(raw), pickle.UnpicklerFunc(envUnpickler)).Decode(); err == nil {
+						if cur, err := functionEnv(f.function); err == nil {
+							probe := &function{oldEnv: old, newEnv: cur}
+							if eq, _, _, err := probe.diffEnv(); err == nil {
+								r.Same = &eq
+							}
+						}
+					}
+				}
+			}
 		}
 		out.Results = append(out.Results, r)
 	}
@@ -133,9 +158,16 @@ func TestVerifFpChild(t *testing.T) {
 	emit()
 }
 
-func fpRunChild(exe, dir, run string) (*fpChildOut, string) {
+func fpRunChild(exe, dir, run string, base ...map[string]string) (*fpChildOut, string) {
 	cmd := exec.Command(exe, "-test.run", "^TestVerifFpChild$", "-test.timeout", "60s")
 	cmd.Env = append(os.Environ(), "VERIF_FP_CHILD="+dir, "VERIF_FP_RUN="+run)
+	if len(base) > 0 && base[0] != nil {
+		bf := filepath.Join(dir, ".fpbase.json")
+		b, _ := json.Marshal(base[0])
+		os.WriteFile(bf, b, 0644)
+		defer os.Remove(bf)
+		cmd.Env = append(cmd.Env, "VERIF_FP_BASE="+bf)
+	}
 	var buf bytes.Buffer
 	cmd.Stdout, cmd.Stderr = &buf, &buf
 	if err := cmd.Start(); err != nil {
@@ -167,6 +199,15 @@ func fpRunChild(exe, dir, run string) (*fpChildOut, string) {
 		s = s[:300]
 	}
 	return nil, kind + ": " + strings.TrimSpace(s)
+}
+
+// fpSame: are the two fingerprints equal -- by dawn's own comparison of the two environments when
+// the child could make it, else by the pickled bytes
+func fpSame(r fpResult, fps map[string]string) bool {
+	if r.Same != nil {
+		return *r.Same
+	}
+	return r.FP == fps[r.Target]
 }
 
 func fpWrite(dir string, files map[string]string) error {
@@ -221,7 +262,7 @@ func TestVerifFp(t *testing.T) {
 			t.Fatal(err)
 		}
 		base, crash := fpRunChild(exe, dir, "")
-		fps := map[string]string{}
+		fps, stamps := map[string]string{}, map[string]string{}
 		if base == nil {
 			events = append(events, map[string]any{"ev": "Fingerprint", "prog": c.ID, "feature": c.Feature, "target": "*", "outcome": strings.SplitN(crash, ":", 2)[0], "msg": crash})
 		} else if base.Load != "ok" {
@@ -230,13 +271,14 @@ func TestVerifFp(t *testing.T) {
 			for _, r := range base.Results {
 				events = append(events, map[string]any{"ev": "Fingerprint", "prog": c.ID, "feature": c.Feature, "target": r.Target, "outcome": r.Outcome, "msg": r.Msg})
 				fps[r.Target] = r.FP
+				stamps[r.Target] = r.Stamp
 			}
 			// a second load of the same text in a new process
-			again, _ := fpRunChild(exe, dir, "")
+			again, _ := fpRunChild(exe, dir, "", stamps)
 			if again != nil && again.Load == "ok" {
 				for _, r := range again.Results {
 					if r.Outcome == "ok" && fps[r.Target] != "" {
-						events = append(events, map[string]any{"ev": "FpPair", "prog": c.ID, "feature": c.Feature, "target": r.Target, "kind": "reload", "equal": r.FP == fps[r.Target]})
+						events = append(events, map[string]any{"ev": "FpPair", "prog": c.ID, "feature": c.Feature, "target": r.Target, "kind": "reload", "equal": fpSame(r, fps)})
 					}
 				}
 			}
@@ -250,13 +292,13 @@ func TestVerifFp(t *testing.T) {
 					files[k] = x
 				}
 				fpWrite(vdir, files)
-				vo, _ := fpRunChild(exe, vdir, "")
+				vo, _ := fpRunChild(exe, vdir, "", stamps)
 				if vo == nil || vo.Load != "ok" {
 					continue
 				}
 				for _, r := range vo.Results {
 					if r.Target == v.Target && r.Outcome == "ok" && fps[r.Target] != "" {
-						events = append(events, map[string]any{"ev": "FpPair", "prog": c.ID, "feature": c.Feature + "/" + v.Name, "target": r.Target, "kind": v.Kind, "equal": r.FP == fps[r.Target]})
+						events = append(events, map[string]any{"ev": "FpPair", "prog": c.ID, "feature": c.Feature + "/" + v.Name, "target": r.Target, "kind": v.Kind, "equal": fpSame(r, fps)})
 					}
 				}
 			}
